@@ -140,7 +140,7 @@ spec("os_mix",
      privescs={"pe_tomcat": P("tomcat", "linux", 1.0, 1, R), "pe_dacl_user": P("daclsvc", "windows", 0.75, 1, U),
                "pe_dacl": P("daclsvc", None, 0.6, 2, R)},
      fw={(0, 1): ["ssh", "smb"], (1, 0): [], (1, 2): ["ssh"], (2, 1): ["smb"]},
-     sens={(2, 0): 12.5}, step_limit=3, bounds=(5, 3), scan_costs=(1, 0.5, 2, 0),
+     sens={(2, 0): 12.5}, step_limit=3, bounds=(5, 3), scan_costs=(0.1, 0.7, 2, 0),
      extra=[X("subnet_scan", (1, 0), cost=1), X("process_scan", (1, 0), cost=1),
             X("service_scan", (2, 0), cost=1), X("os_scan", (2, 0), cost=1),
             X("exploit", (2, 0), cost=1, prob=1.0, srv="ssh", access=R, name="x_e_ssh_root"),
@@ -159,6 +159,35 @@ spec("chain",
      fw={(0, 1): ["ssh"], (1, 0): [], (1, 2): ["ssh"], (2, 1): ["ssh"], (2, 3): ["ssh"], (3, 2): [],
          (3, 4): ["ssh"], (4, 3): ["ssh"]},
      sens={(1, 0): 5, (2, 0): 7, (4, 0): 9})
+
+# --- chain internet-1-2-3 whose hosts are listed in an order unrelated to their addresses; the first listed
+#     host is the uniquely most valuable one; subnet 3 must stay unreachable until subnet 2 is entered
+spec("unordered_chain",
+     subnets=[1, 2, 1], topology=topo(4, [(0, 1), (1, 2), (2, 3)]),
+     os=["linux"], services=["ssh", "ftp"], processes=["tomcat"],
+     hosts={(3, 0): H("linux", ["ssh"], ["tomcat"], dvalue=2),
+            (2, 1): H("linux", ["ftp"], [], value=0.5, dvalue=1),
+            (1, 0): H("linux", ["ssh", "ftp"], ["tomcat"]),
+            (2, 0): H("linux", ["ssh"], ["tomcat"], value=-1, dvalue=3)},
+     exploits={"e_ssh": E("ssh", "linux", 0.8, 1, U), "e_ftp": E("ftp", None, 1.0, 2, R)},
+     privescs={"pe_tomcat": P("tomcat", "linux", 1.0, 1, R)},
+     # (1, 3) / (3, 1): leftover rules between subnets that are NOT connected - the loader accepts them, they
+     # must not connect anything
+     fw={(0, 1): ["ssh"], (1, 0): [], (1, 2): ["ssh", "ftp"], (2, 1): [], (2, 3): ["ssh"], (3, 2): ["ssh"],
+         (1, 3): ["ssh", "ftp"], (3, 1): ["ssh"]},
+     sens={(3, 0): 50, (1, 0): 5})
+
+# --- two hosts with the very same configuration block (rendered to YAML as an anchor and an alias), the first
+#     of them sensitive, the second not
+spec("twins",
+     subnets=[2, 1], topology=topo(3, [(0, 1), (1, 2)]),
+     os=["linux"], services=["ssh"], processes=["tomcat"],
+     hosts={(1, 0): H("linux", ["ssh"], ["tomcat"]), (1, 1): H("linux", ["ssh"], ["tomcat"]),
+            (2, 0): H("linux", ["ssh"], ["tomcat"])},
+     exploits={"e_ssh": E("ssh", "linux", 0.9, 1, U)},
+     privescs={"pe_tomcat": P("tomcat", "linux", 1.0, 1, R)},
+     fw={(0, 1): ["ssh"], (1, 0): [], (1, 2): ["ssh"], (2, 1): ["ssh"]},
+     sens={(1, 0): 7, (2, 0): 3})
 
 # --- one sensitive host that can only hold USER access (goal unreachable: all vs any, USER vs ROOT)
 spec("user_only",
@@ -278,8 +307,18 @@ def yaml_doc(sp):
 
 
 def write_yaml(sp, path):
+    import json as _json
+    doc = yaml_doc(sp)
+    seen = {}
+    hc = doc["host_configurations"]
+    for k in list(hc.keys()):          # identical blocks become one object: PyYAML writes an anchor and aliases
+        key = _json.dumps(hc[k], sort_keys=True, default=str)
+        if key in seen:
+            hc[k] = seen[key]
+        else:
+            seen[key] = hc[k]
     with open(path, "w") as fh:
-        yaml.safe_dump(yaml_doc(sp), fh, sort_keys=False, default_flow_style=None)
+        yaml.safe_dump(doc, fh, sort_keys=False, default_flow_style=None)
     return path
 
 
